@@ -413,6 +413,21 @@ func (mo *monitor) observe(c *raftsim.Cluster, op string, res raftsim.Result) {
 			}
 		}
 	}
+	// --- C07: membership changes one at a time
+	if st.Role == 3 && !st.EntriesCompacted {
+		cnt := 0
+		for _, e := range st.Entries {
+			if e.Index > st.Applied && e.Type == pb.ConfigChangeEntry {
+				cnt++
+			}
+		}
+		if cnt > 1 {
+			mo.v("C07", "leader %d holds %d membership changes above its applied index %d", n.ID, cnt, st.Applied)
+		}
+	}
+	if pr, ok := mo.prevRole[n.ID]; ok && pr == 0 && (st.Role == 1 || st.Role == 2) && st.Committed > st.Applied && f[0] != "RESTART" {
+		mo.v("C07", "replica %d started a campaign with committed %d > applied %d", n.ID, st.Committed, st.Applied)
+	}
 	// --- C18: only full voters campaign or lead: a replica whose own membership lists it as
 	// non-voting or witness, or that was non-voting/witness one operation ago, must not be
 	// (pre)candidate or leader (promotion goes through the follower role)
